@@ -286,6 +286,7 @@ func RunUtxo(ctx *vrun.Ctx, k, d, maxops, maxPaths int) error {
 	var firstErr error
 	var mu sync.Mutex
 	ctx.Parallel(len(paths), func(i int) {
+		defer guardPanic(ctx, fmt.Sprintf("UtxoCache.tla path %d", i))
 		if err := replayUtxoPath(ctx, k, paths[i], every[i]); err != nil {
 			mu.Lock()
 			if firstErr == nil {
